@@ -131,7 +131,38 @@ Definition op_ok (ev : env) (s : st) (o : op) : bool :=
   c21_op_ok ev s o &&
   match o with
   | Create _ e _ | Update _ e => negb (h_dir e) || match h_chunks e with [] => true | _ => false end
+  | Append p cs =>
+      (* the offsets AppendToEntry assigns stay below MaxInt64 (no int64 overflow) *)
+      total_size (match find_entry ev s p with Some e => h_chunks e | None => [] end) +
+      fold_right (fun c acc => c_size c + acc) 0 cs <? max_int64
   | _ => true
+  end.
+
+(* the hypothesis of the partial theorems of C20: the assumptions hold, the operation involves neither
+   a hard link nor a manifest chunk (every known finding needs one of the two), and a renamed entry
+   is a file (directory renames: C18) *)
+Definition c20_quiet (ev : env) (s : st) (o : op) : bool :=
+  op_ok ev s o &&
+  match o with Link _ _ _ => false | _ => true end &&
+  forallb (fun c => negb (c_manifest c)) (op_chunks o) &&
+  match o with
+  | Rename oldp _ => match nfind s oldp with Some e => negb (h_dir e) | None => true end
+  | _ => true
+  end.
+
+Fixpoint c20_hist_quiet (ev : env) (s : st) (ops : list op) : bool :=
+  match ops with
+  | [] => true
+  | o :: ops' => c20_quiet ev s o && c20_hist_quiet ev (st_of (step ev s o)) ops'
+  end.
+
+(* the C20 property at every step of the model's run *)
+Fixpoint c20_run_ok (ev : env) (s : st) (ops : list op) : bool :=
+  match ops with
+  | [] => true
+  | o :: ops' =>
+      let r := step ev s o in
+      step_prop ev s o (refs ev s) (refs ev (st_of r)) (sched_of r) && c20_run_ok ev (st_of r) ops'
   end.
 
 Fixpoint hist_ok (ev : env) (s : st) (ops : list op) : bool :=
